@@ -435,7 +435,18 @@ func seed(t *rapid.T, m *ref.SpecModel, kind string, i int) {
 		}
 	case "samevalue":
 		v := fmt.Sprintf("same%d", i)
-		switch rapid.IntRange(0, 2).Draw(t, "variant") {
+		switch rapid.IntRange(0, 3).Draw(t, "variant") {
+		case 3: // a token declared by a predefined name and a pattern token spelled exactly as its documented pattern
+			var names []string
+			for n, text := range gen.PredefTexts {
+				if !strings.Contains(text, "/") && !strings.Contains(text, "\n") {
+					names = append(names, n)
+				}
+			}
+			sort.Strings(names)
+			name := rapid.SampledFrom(names).Draw(t, "predefName")
+			insertAt(t, m, &ref.Decl{Kind: "token", Name: fmt.Sprintf("SVA%d", i), TokKind: "predef", Text: name, Semi: true}, "pos1")
+			insertAt(t, m, &ref.Decl{Kind: "token", Name: fmt.Sprintf("SVB%d", i), TokKind: "regex", Text: gen.PredefTexts[name], Semi: true}, "pos2")
 		case 0: // two named string tokens
 			insertAt(t, m, &ref.Decl{Kind: "token", Name: fmt.Sprintf("SVA%d", i), TokKind: "string", Text: v, Semi: true}, "pos1")
 			insertAt(t, m, &ref.Decl{Kind: "token", Name: fmt.Sprintf("SVB%d", i), TokKind: "string", Text: v, Semi: true}, "pos2")
@@ -658,6 +669,10 @@ func TestCLIExitStatus(t *testing.T) {
 		"grammar g;\nAA = \"x\"\nBB = \"x\"\nstart = AA BB;\n":          false,
 		"grammar g;\n@left \"a\"\n@right \"a\"\nstart = \"a\";\n":       false,
 		"grammar g;\nAA = \"x\"\nAA = \"y\"\nstart = AA;\n":             false,
+		// well-formed: a string that spells a predefined name next to the token declared by it; ranges of one character
+		"grammar g;\nID = $ID\nstart = ID \"$ID\" \"$DIGIT\";\n":            true,
+		"grammar g;\nZERO = /[0-0]+/\nAA = /[\\x41-\\x41]x/\nstart = ZERO AA;\n": true,
+		"grammar g;\nDIGIT = $DIGIT\nNUM = /[0-9]/\nstart = DIGIT NUM;\n":    false,
 	}
 	for src, ok := range cases {
 		dir := t.TempDir()
